@@ -166,6 +166,8 @@ func (g *gen) presentation(r *hx.Rng, extraCtx string) map[string]interface{} {
 
 // signedDoc generates a document and signs it through the real API (sometimes twice: a proof set).
 func (g *gen) signedDoc(r *hx.Rng, kind string, sd *suiteDef, idx int) (map[string]interface{}, int, error) {
+	g.w.diExpect = [3]string{}
+
 	var doc map[string]interface{}
 	if kind == "vc" {
 		doc = g.credential(r, sd.extra)
@@ -205,6 +207,13 @@ func (g *gen) signedDoc(r *hx.Rng, kind string, sd *suiteDef, idx int) (map[stri
 		}
 
 		signed, err := g.w.signDI(kind, doc, key, so.created, so.purpose, so.domain, so.challenge)
+
+		// what the verifier is configured to expect of the proof: the purpose it was made for, and sometimes the
+		// domain and challenge as well
+		g.w.diExpect = [3]string{so.purpose, "", ""}
+		if r.Intn(3) == 0 {
+			g.w.diExpect = [3]string{so.purpose, so.domain, so.challenge}
+		}
 
 		return signed, 1, err
 	}
